@@ -494,6 +494,9 @@ type Lockstep struct {
 // canonical order anyway); the locks themselves keep working.
 func (l *Lockstep) Quiet() { l.quiet.Store(true) }
 
+// SetQuiet switches parking off and on again (honest prologues that run before the run proper).
+func (l *Lockstep) SetQuiet(q bool) { l.quiet.Store(q) }
+
 // ResetLockstep is set by package lockrt in a lockstep build: RunOne / RunTimed call it before every
 // run so that a world that does not use the runtime never meets the one a previous run installed.
 var ResetLockstep func()
